@@ -54,7 +54,7 @@ pub fn gen_v6(t: &mut Tape) -> [u16; 8] {
         5 => {
             // a well-known prefix (NAT64 and its local-use /48, 6to4, Teredo, documentation, link-local, multicast,
             // discard-only, IPv4-mapped) followed by random groups, some of them zero
-            let prefix: &[u16] = *t.pick(&[&[0x64, 0xff9b][..], &[0x64, 0xff9b, 1], &[0x2002], &[0x2001, 0], &[0x2001, 0xdb8], &[0xfe80], &[0xff02], &[0x100], &[0, 0, 0, 0, 0, 0xffff], &[0x64, 0xff9b, 0, 0, 0, 0], &[0x2001, 2, 0], &[0x2001, 0x10], &[0x2001, 0x20], &[0xfc00], &[0xfd00], &[0xfec0], &[0x2002, 0x0a00, 1], &[0x2002, 0xc0a8, 0x0101], &[0x2001, 0x0db8, 0, 0], &[0x3fff], &[0x5f00]]);
+            let prefix: &[u16] = *t.pick(&[&[0x64, 0xff9b][..], &[0x64, 0xff9b, 1], &[0x2002], &[0x2001, 0], &[0x2001, 0xdb8], &[0xfe80], &[0xff02], &[0x100], &[0, 0, 0, 0, 0, 0xffff], &[0x64, 0xff9b, 0, 0, 0, 0], &[0x2001, 2, 0], &[0x2001, 0x10], &[0x2001, 0x20], &[0, 0, 0, 0, 0xffff, 0], &[0, 0, 0, 0, 0xffff, 0], &[0, 0, 0, 0, 0, 0], &[0xfc00], &[0xfd00], &[0xfec0], &[0x2002, 0x0a00, 1], &[0x2002, 0xc0a8, 0x0101], &[0x2001, 0x0db8, 0, 0], &[0x3fff], &[0x5f00]]);
             for i in 0..8 {
                 g[i] = if i < prefix.len() { prefix[i] } else if t.chance(1, 3) { 0 } else { t.u16() };
             }
@@ -528,7 +528,7 @@ fn text_char(t: &mut Tape, ascii_only: bool) -> Vec<u8> {
         // byte searches tend to confuse with them
         2 => vec![*t.pick(&[b'\t', b'\n', 0u8, 0x7f, 0x0b, 0x0c, 0x0c, 0x0e, 0x1f, 0x21, 0x01, 0x1b])],
         _ => {
-            let c = *t.pick(&['\u{e9}', '\u{df}', '\u{20ac}', '\u{4e2d}', '\u{1f600}', '\u{10348}', '\u{7ff}', '\u{800}', '\u{ffff}', '\u{10d}', '\u{10a}', '\u{120}', '\u{200d}', '\u{2020}', '\u{ff0d}', '\u{3000}', '\u{100}', '\u{a0d}', '\u{200b}', '\u{feff}', '\u{202e}', '\u{2066}', '\u{2069}', '\u{ad}', '\u{200e}', '\u{2060}']);
+            let c = *t.pick(&['\u{e9}', '\u{df}', '\u{20ac}', '\u{4e2d}', '\u{1f600}', '\u{10348}', '\u{7ff}', '\u{800}', '\u{ffff}', '\u{10d}', '\u{10a}', '\u{120}', '\u{200d}', '\u{2020}', '\u{ff0d}', '\u{3000}', '\u{100}', '\u{a0d}', '\u{200b}', '\u{feff}', '\u{202e}', '\u{2066}', '\u{2069}', '\u{ad}', '\u{200e}', '\u{2060}', '\u{a0}', '\u{2003}', '\u{3000}', '\u{85}', '\u{2028}']);
             c.to_string().into_bytes()
         }
     }
@@ -1123,7 +1123,16 @@ pub fn gen_v1_mutant(t: &mut Tape) -> (Vec<u8>, &'static str) {
             let spaces: Vec<usize> = line.iter().enumerate().filter(|(_, &b)| b == b' ').map(|(i, _)| i).collect();
             if !spaces.is_empty() {
                 let at = spaces[t.below(spaces.len() as u32) as usize];
-                line[at] = *t.pick(&[b'\r', b'\r', b'\n', b'\t', 0x0c]);
+                // ... or a character whose code point equals SP or CR modulo 64 / 128 / 256 (a separator test done with a
+                // shift, a mask or a narrowing cast takes it for one)
+                if t.chance(1, 3) {
+                    let c = *t.pick(&['`', 'M', '\u{a0}', '\u{e0}', '\u{120}', '\u{10d}', '\u{8d}', '\u{4d}', '\u{2020}', '\u{200d}']);
+                    let mut buf = [0u8; 4];
+                    let enc = c.encode_utf8(&mut buf).as_bytes().to_vec();
+                    line.splice(at..at + 1, enc);
+                } else {
+                    line[at] = *t.pick(&[b'\r', b'\r', b'\n', b'\t', 0x0c]);
+                }
             }
             return (line, label);
         }
@@ -1498,6 +1507,10 @@ pub fn gen_tlv_list(t: &mut Tape, room: usize) -> Vec<(u8, Vec<u8>)> {
                         v.push(k);
                         v.extend_from_slice(&(w.len() as u16).to_be_bytes());
                         v.extend_from_slice(w.as_bytes());
+                    }
+                    // (one container in four ends in one or two stray bytes: too few for another sub-TLV head)
+                    if t.chance(1, 4) {
+                        v.extend_from_slice(&[0x21, 0x00][..1 + t.below(2) as usize]);
                     }
                     (0x20, v)
                 }
@@ -2226,7 +2239,8 @@ pub fn gen_multibyte_cr(t: &mut Tape) -> String {
         }
     };
     let c = *t.pick(&['\u{e9}', '\u{20ac}', '\u{1f600}', '\u{80}', '\u{7ff}', '\u{800}', '\u{10000}', '\u{10d}', '\u{10a}', '\u{120}', '\u{200d}']);
-    let mut s = head;
+    // one head in eight carries something text tooling adds or ignores in front (a byte order mark, a zero-width space)
+    let mut s = if t.chance(1, 8) { format!("{}{}", t.pick(&["\u{feff}", "\u{200b}", "\u{feff}\u{feff}", "\u{a0}"]), head) } else { head };
     match t.below(4) {
         0 => {
             s.push('\r');
